@@ -11,6 +11,7 @@
 //	                                            acc|conn|nonce|revert|funds|other|closed|hdr|connsend
 //	sig <sighex>                                Signature.ToBigInt
 //	pk <marshalled G2 hex> [k]                  decodePubKey (k: the point is k·G2, checked against go-ethereum's bn256)
+//	cfg <gasLimit> <gasPrice> <chainId> <op>…   history of gp:<v> | gl:<v> | re | tx:<outcomes> on one adaptor
 //	race <n>                                    two callers on the real adaptor: B queues behind A, A's failures cancel all n endpoints
 package c19
 
@@ -48,7 +49,7 @@ func init() {
 		ID: "C19",
 		Rule: "cases: hr (handleReq through the hook: EVERY assignment of the 7 endpoint outcomes to 1..4 endpoints, operation-context cancellation at every position), " +
 			"seq (real adaptor connected by its own Connect to 1..3 scripted JSON-RPC endpoints: EVERY assignment of the 6 property outcomes to 1..3 endpoints x each of the six calls, with boundary arguments; " +
-			"all six calls x boundary arguments on a healthy endpoint; 2-3 call sequences so that earlier failures leave cancelled endpoints), sig/pk (marshalling incl. leading zeros); " +
+			"all six calls x boundary arguments on a healthy endpoint; 2-3 call sequences so that earlier failures leave cancelled endpoints), cfg (histories of SetGasPrice / SetGasLimit / DisconnectAll+Connect / calls with failing endpoints: every transaction must carry the current configuration), sig/pk (marshalling incl. leading zeros); " +
 			"non-trivial = at least one endpoint does not simply accept, or an argument has a leading zero byte / boundary size; distinct = distinct case line",
 		Gen:        gen,
 		Exec:       exec,
@@ -722,6 +723,160 @@ func execPK(w []string) (res h.Result) {
 	return
 }
 
+// cfg <gasLimit> <gasPrice> <chainId> <op>…: a history on one real adaptor.  ops: gp:<v> SetGasPrice(v), gl:<v>
+// SetGasLimit(v), re (DisconnectAll + Connect, what the node does when the chain connection is lost),
+// tx:<outcomes> (RegisterNewNode with the endpoints scripted as in seq).  Every recorded raw transaction must
+// carry the CURRENT configuration: the gas limit and gas price last set (price 0: the endpoint's suggestion),
+// the configured chain id, the node key.
+func execCfg(w []string) (res h.Result) {
+	abis()
+	gl, gp, cid := uint64(h.Atoi(w[1])), h.BigDec(w[2]), h.BigDec(w[3])
+	n := 1
+	for _, tok := range w[4:] {
+		if strings.HasPrefix(tok, "tx:") {
+			n = len(strings.Split(tok[3:], ","))
+			break
+		}
+	}
+	st, err := chaindouble.NewStack(n, 1, cid, gl, gp.Uint64(), nil)
+	if err != nil {
+		res.Impl = "connect-failed " + h.OneLine(err.Error())
+		res.Oracle = "harness-connect-failed: " + h.OneLine(err.Error())
+		return
+	}
+	defer st.Close()
+	place := func() {
+		for i, e := range st.RPC {
+			e.SetNonce(uint64(7 + i))
+			e.SetGasPrice(big.NewInt(int64(2000000000 + i)))
+		}
+	}
+	place()
+	// the configuration the operator has set, tracked here independently of adaptor and model
+	curLimit, curPrice := gl, new(big.Int).Set(gp)
+	dead := map[int]bool{}
+	var lines []string
+	ntx, nre := 0, 0
+	for _, tok := range w[4:] {
+		p := strings.SplitN(tok, ":", 2)
+		switch p[0] {
+		case "gp":
+			v := h.BigDec(p[1])
+			st.Adaptor.SetGasPrice(v)
+			curPrice = v
+		case "gl":
+			v := h.BigDec(p[1])
+			st.Adaptor.SetGasLimit(v)
+			curLimit = v.Uint64()
+		case "re":
+			nre++
+			if err := st.Reconnect(); err != nil {
+				res.Impl = "reconnect-failed " + h.OneLine(err.Error())
+				res.Oracle = "harness-reconnect-failed: " + h.OneLine(err.Error())
+				return
+			}
+			place()
+			dead = map[int]bool{}
+		case "tx":
+			ntx++
+			outs := strings.Split(p[1], ",")
+			for i, e := range st.RPC {
+				script(e, outs[i])
+				e.ResetCalls()
+				e.ResetRawTxs()
+			}
+			cerr := st.Adaptor.RegisterNewNode()
+			var contacted, raw []int
+			var txs []string
+			for i, e := range st.RPC {
+				if len(e.Calls()) > 0 {
+					contacted = append(contacted, i)
+				}
+				rts := e.RawTxs()
+				if len(rts) == 0 {
+					continue
+				}
+				raw = append(raw, i)
+				tx := new(types.Transaction)
+				if err := tx.UnmarshalBinary(rts[0]); err != nil {
+					txs = append(txs, fmt.Sprintf("%d:undecodable", i))
+					if res.Oracle == "" {
+						res.Oracle = "tx-undecodable"
+					}
+					continue
+				}
+				from := "other"
+				if snd, err := types.Sender(types.LatestSignerForChainID(tx.ChainId()), tx); err == nil && snd == st.Key.Address {
+					from = "key"
+				}
+				txs = append(txs, fmt.Sprintf("%d:nonce=%d gas=%d price=%s chain=%s from=%s", i, tx.Nonce(), tx.Gas(), tx.GasPrice(), tx.ChainId(), from))
+				if res.Oracle == "" {
+					wantPrice := curPrice
+					if curPrice.Sign() == 0 {
+						wantPrice = big.NewInt(int64(2000000000 + i)) // what this endpoint suggests
+					}
+					switch {
+					case tx.Gas() != curLimit:
+						res.Oracle = fmt.Sprintf("tx-stale-gas-limit: transaction carries gas limit %d, the configured one is %d", tx.Gas(), curLimit)
+					case tx.GasPrice().Cmp(wantPrice) != 0:
+						res.Oracle = fmt.Sprintf("tx-stale-gas-price: transaction carries gas price %s, the configured one is %s (0 = endpoint-suggested, here %s)", tx.GasPrice(), curPrice, wantPrice)
+					case tx.ChainId().Cmp(cid) != 0:
+						res.Oracle = "tx-wrong-chain-id: " + tx.ChainId().String()
+					case from != "key":
+						res.Oracle = "tx-wrong-signer"
+					case tx.To() == nil || *tx.To() != st.Proxy:
+						res.Oracle = "tx-wrong-contract"
+					}
+				}
+			}
+			t := "-"
+			if len(txs) > 0 {
+				t = strings.Join(txs, ";")
+			}
+			lines = append(lines, fmt.Sprintf("err=%s contacted=%s raw=%s tx=%s", errKind(cerr), csvInts(contacted), csvInts(raw), t))
+			if res.Oracle == "" {
+				alive := false
+				for i := range outs {
+					if !dead[i] {
+						alive = true
+					}
+				}
+				if !alive {
+					if len(contacted) > 0 {
+						res.Oracle = "cancelled-endpoint-contacted"
+					} else if cerr == nil {
+						res.Oracle = "nil-error-nothing-sent: no live endpoint, call returned nil"
+					}
+				} else {
+					norm := make([]string, len(outs))
+					for i, o := range outs {
+						switch o {
+						case "conn":
+							o = "nonce"
+						case "hdr", "connsend":
+							o = "other"
+						}
+						norm[i] = o
+					}
+					res.Oracle = failoverOracle(norm, contacted, nil, true, cerr == nil, cerr, dead)
+				}
+			}
+			for _, i := range contacted {
+				switch outs[i] {
+				case "conn", "nonce", "closed":
+					dead[i] = true
+				}
+			}
+		default:
+			panic("bad cfg op " + tok)
+		}
+	}
+	res.Impl = strings.Join(lines, " | ")
+	res.Class = fmt.Sprintf("cfg-n%d-re%d-tx%d", n, nre, ntx)
+	res.Nontrivial = true
+	return
+}
+
 // race <n>: the F8 situation through the public API.  Request A is being handled (endpoint 0 holds its
 // nonce lookup), request B passes the isConnecting check and queues; A then fails on every endpoint with a
 // nonce error, which cancels them all; B is handled with every endpoint context done.
@@ -787,6 +942,8 @@ func exec(line string) (res h.Result) {
 		return execPK(w)
 	case "race":
 		return execRace(w)
+	case "cfg":
+		return execCfg(w)
 	}
 	panic("bad case line")
 }
